@@ -351,3 +351,104 @@ func TestConcurrent(t *testing.T) {
 		rec.Report(t, "schedule", v)
 	})
 }
+
+// HotCase: G goroutines call the SAME few operations (2..3 argument sets of one kind) in tight loops, each
+// goroutine starting at another one, so that every call repeats what another goroutine has just done or is
+// doing: the access pattern a memo, a last-result cache or a scratch buffer keyed by its argument needs
+// to go wrong, and which sequences of unrelated calls almost never produce.
+type HotCase struct {
+	Procs int  `json:"gomaxprocs"`
+	G     int  `json:"goroutines"`
+	Iters int  `json:"iterations"`
+	Ops   []Op `json:"ops"`
+}
+
+func runHot(c HotCase) *vk.Violation {
+	old := runtime.GOMAXPROCS(c.Procs)
+	defer runtime.GOMAXPROCS(old)
+	seen := make([][]map[string]int, c.G)
+	var wg sync.WaitGroup
+	barrier := make(chan struct{})
+	for gi := 0; gi < c.G; gi++ {
+		gi := gi
+		seen[gi] = make([]map[string]int, len(c.Ops))
+		for k := range seen[gi] {
+			seen[gi][k] = map[string]int{}
+		}
+		wg.Add(1)
+		go func() {
+			defer wg.Done()
+			<-barrier
+			for i := 0; i < c.Iters; i++ {
+				k := (i + gi) % len(c.Ops)
+				seen[gi][k][exec(c.Ops[k])]++
+			}
+		}()
+	}
+	close(barrier)
+	wg.Wait()
+	runtime.GOMAXPROCS(old)
+	for k, op := range c.Ops {
+		want := exec(op)
+		for gi := range seen {
+			for d, n := range seen[gi][k] {
+				if d != want {
+					return vk.Violf("concurrent-result-differs/hot-loop/"+op.K, c, "goroutine %d, operation %d (%s) repeated by %d goroutines: %d of its calls returned %s, the same call run alone returns %s", gi, k, op.K, c.G, n, d, want)
+				}
+			}
+		}
+	}
+	return nil
+}
+
+func init() {
+	reg["hot"] = func(raw json.RawMessage) *vk.Violation {
+		var c HotCase
+		_ = json.Unmarshal(raw, &c)
+		for i := 0; i < 20; i++ {
+			if v := runHot(c); v != nil {
+				return v
+			}
+		}
+		return nil
+	}
+}
+
+func TestHotLoops(t *testing.T) {
+	rapid.Check(t, func(t *rapid.T) {
+		kind := rapid.SampledFrom([]string{"msgid", "msgid", "names", "period", "ucs2", "gsm7", "content", "split", "string", "encode"}).Draw(t, "kind")
+		c := HotCase{Procs: rapid.SampledFrom([]int{2, 4, 8, 16}).Draw(t, "gomaxprocs"), G: rapid.SampledFrom([]int{2, 3, 4, 8}).Draw(t, "goroutines")}
+		n := rapid.IntRange(2, 3).Draw(t, "nops")
+		for len(c.Ops) < n {
+			op := opGen.Draw(t, "op")
+			if op.K != kind {
+				op.K = kind
+				switch kind {
+				case "msgid", "names", "period":
+				case "string", "encode":
+					b := gen.DrawBinding(t, false)
+					j := ref.ToJ(b.Spec, gen.DrawVals(t, b, gen.Opts{MaxTriplets: 1}))
+					op.Vals = &j
+				default:
+					op.Text = vk.Hex([]byte(rapid.SampledFrom(texts[:5]).Draw(t, "text")))
+					op.Proto = rapid.SampledFrom([]string{"cmpp", "smpp"}).Draw(t, "proto")
+					op.Coding = 8
+				}
+			}
+			if (kind == "ucs2" || kind == "split") && len(op.Text) > 2000 {
+				op.Text = vk.Hex([]byte(texts[0]))
+			}
+			op.Yield = false
+			c.Ops = append(c.Ops, op)
+		}
+		c.Iters = map[string]int{"msgid": 8000, "names": 1500, "period": 3000}[kind]
+		if c.Iters == 0 {
+			c.Iters = 600
+		}
+		rec.Eval()
+		j, _ := json.Marshal(c)
+		rec.NonTrivial("hot", j)
+		rec.Class("hot_loop:" + kind)
+		rec.Report(t, "hot", runHot(c))
+	})
+}
